@@ -31,6 +31,10 @@ PRIORS = {
     "AXB/SXT": [("AXB", ["SXT"])],
     "A_B/SXT": [("A_B", ["SXT"])],
     "A_B/S_T": [("A_B", ["S_T"])],
+    # another database holds a schema named like the requested one (existence checks must be scoped to the requested database)
+    "DB2.S1": [("DB2", ["S1"])],
+    "DB1,DB2.S1": [("DB1", []), ("DB2", ["S1"])],
+    "DB2.S1,DB1": [("DB2", ["S1"]), ("DB1", [])],
 }
 
 
@@ -45,26 +49,54 @@ def _probe(conn) -> str:
         return "X:" + type(e).__name__
 
 
-def _listing(obs, d: str | None):
-    """[(catalog, file?, [(schema, content)…])…] sorted, and the sorted stems of the .db files under db_path"""
+T_DDL = ["create table {q}.T (x int, name varchar(20)) comment = 'people'", "insert into {q}.T values (1, 'Jenny')"]
+T_EXPECTED = ([(1, "Jenny")], [("X", "NUMBER(38,0)"), ("NAME", "VARCHAR(20)")], [("X", None), ("NAME", 20)], [("people",)])
+
+
+def _content(obs, c: str, s: str, deep: bool = True):
+    """content id of schema c.s: 0 = no table T; T_CONTENT = T exactly as the prior state made it (rows, DESCRIBE TABLE types with
+    lengths, information_schema.columns lengths, table comment); any other state gets its own id"""
+    import zlib
+    cur = obs.cursor()
+    try:
+        rows = cur.execute(f"select * from {c}.{s}.T").fetchall()
+    except Exception:  # noqa: BLE001
+        return 0, None
+    if not deep:   # initial-state sanity only: the rows
+        return (T_CONTENT, None) if rows == T_EXPECTED[0] else (99, f"{c}.{s}.T rows {rows}")
+    try:
+        cur.execute(f"use database {c}")
+        desc = [(r[0], r[1]) for r in cur.execute(f"describe table {c}.{s}.T").fetchall()]
+        lens = cur.execute(f"select column_name, character_maximum_length from {c}.information_schema.columns "
+                           f"where table_schema = '{s}' and table_name = 'T' order by ordinal_position").fetchall()
+        comment = cur.execute(f"select comment from {c}.information_schema.tables where table_schema = '{s}' and table_name = 'T'").fetchall()
+        snap = (rows, desc, lens, comment)
+    except Exception as e:  # noqa: BLE001
+        snap = (rows, f"X:{type(e).__name__}")
+    if snap == T_EXPECTED:
+        return T_CONTENT, None
+    return 100 + zlib.crc32(repr(snap).encode()) % 1000000, f"{c}.{s}.T is (rows, describe, lengths, comment) = {snap}"
+
+
+def _listing(obs, d: str | None, deep: bool = True):
+    """[(catalog, file?, [(schema, content)…])…] sorted, the sorted stems of the .db files under db_path, and notes on unexpected content"""
     cur = obs.cursor()
     cur.execute("select catalog_name, schema_name from memory.information_schema.schemata")
     cats: dict[str, list] = {}
+    notes = []
     for c, s in cur.fetchall():
         if c in SYSTEM_CATALOGS:
             continue
         cats.setdefault(c, [])
         if s.lower() in BUILTIN_SCHEMAS:
             continue
-        try:
-            rows = obs.cursor().execute(f'select x from "{c}"."{s}".T').fetchall()
-            content = T_CONTENT if rows == [(1,)] else 99
-        except Exception:  # noqa: BLE001
-            content = 0
+        content, note = _content(obs, c, s, deep)
+        if note:
+            notes.append(note)
         cats[c].append((s, content))
     files = sorted(f[:-3] for f in os.listdir(d) if f.endswith(".db")) if d else []
     att = sorted((c, bool(d) and os.path.exists(os.path.join(d, c + ".db")), sorted(ss)) for c, ss in cats.items())
-    return att, files
+    return att, files, notes
 
 
 def _session_state(conn):
@@ -82,9 +114,11 @@ def _real(cfg) -> dict:
         def make_prior(cur):
             for cat, schemas in PRIORS[prior]:
                 cur.execute(f"create database {cat}")
+                cur.execute(f"use database {cat}")
                 for sc in schemas:
                     cur.execute(f"create schema {cat}.{sc}")
-                    cur.execute(f"create table {cat}.{sc}.T as select 1 x")
+                    for ddl in T_DDL:
+                        cur.execute(ddl.format(q=f"{cat}.{sc}"))
 
         if storage == "existing":
             with fakesnow.patch(db_path=d):
@@ -100,7 +134,7 @@ def _real(cfg) -> dict:
                     other.cursor().execute(f"use database {PRIORS[prior][0][0]}")
                     if PRIORS[prior][0][1]:
                         other.cursor().execute(f"use schema {PRIORS[prior][0][1][0]}")
-            init = _listing(obs, dbp)
+            init = _listing(obs, dbp, deep=False)
             other_before = _session_state(other)
             outs = []
             for _ in range(2 if order == "second" else 1):
@@ -218,7 +252,8 @@ def _check(chk, cfg, real, reply) -> None:
         i = next(j for j in range(len(spec_outs)) if j >= len(real["outs"]) or real["outs"][j] != spec_outs[j])
         bad = f"connect #{i + 1} gave {_show_out(real['outs'][i])}, required {_show_out(spec_outs[i])}"
     elif real_world != spec_world:
-        bad = f"afterwards the catalogs (name, file-backed, schemas with content) / db files are {real_world}, required {spec_world}"
+        bad = (f"afterwards the catalogs (name, file-backed, schemas with content id; {T_CONTENT} = table T with its rows, VARCHAR lengths and comment "
+               f"as created) / db files are {real_world}, required {spec_world}" + ("; " + "; ".join(real["final"][2]) if real["final"][2] else ""))
     elif real["other_after"] != real["other_before"]:
         bad = f"another session's (database, schema, probe) changed from {real['other_before']} to {real['other_after']}"
     elif real["other_data"] not in (None, [(1,)]):
@@ -237,12 +272,14 @@ def _configs(chk):
     product = list(itertools.product([None, "db1", "DB1", "Db1"], [None, "s1", "S1", "information_schema"], [True, False], [True, False],
                                      ["memory", "fresh", "existing"], ["nothing", "db", "db+schema"], ["first", "second"]))
     adversarial = list(itertools.product(["", "my_db2"], [None, "", "main", "Pg_Catalog", "s_2", "Information_Schema"], [True, False], [True, False],
-                                         ["memory", "fresh"], ["nothing", "db+schema"], ["first"]))
+                                         ["memory"], ["nothing", "db+schema"], ["first"]))
     adversarial += list(itertools.product(["dB1"], ["S1", "MAIN", ""], [True, False], [True, False], ["memory", "existing"], ["db", "db+schema"], ["second"]))
     # names with `_` next to an existing name that differs only at that position (exact, upper-cased name equality is required:
     # `_` and `%` must not act as LIKE wildcards), both directions, database and schema
     adversarial += list(itertools.product(["a_b", "A_B"], [None, "s_t"], [True, False], [True, False], ["memory", "fresh", "existing"],
-                                          ["AXB/SXT", "A_B/SXT"], ["first", "second"]))
+                                          ["AXB/SXT", "A_B/SXT"], ["first"]))
+    adversarial += list(itertools.product(["db1", "DB1"], ["s1", "S1"], [True, False], [True, False], ["memory", "fresh", "existing"],
+                                          ["DB2.S1", "DB1,DB2.S1", "DB2.S1,DB1"], ["first"]))
     adversarial += list(itertools.product(["axb"], [None, "sxt"], [True, False], [True, False], ["memory", "fresh", "existing"], ["A_B/S_T"], ["first"]))
     return product, adversarial
 
@@ -304,7 +341,7 @@ def _seq_worker(shard):
 def _seq_line(seq, step) -> str:
     """one connect of a sequence, from the catalog state observed just before it"""
     cdb, csc, storage, _ = seq
-    att, files = step["pre"]
+    att, files = step["pre"][0], step["pre"][1]
     enc_s = lambda schemas: ",".join(f"{enc_str(n)}={k}" for n, k in schemas) or "-"  # noqa: E731
     attached = [f"{enc_str(c)}|{int(f)}|{enc_s(scs)}" for c, f, scs in att]
     disk = [f"{enc_str(n)}|-" for n in files]
@@ -379,7 +416,7 @@ def run(chk) -> None:
     chk.rule = ("complete product database{absent,lower,UPPER,Mixed} × schema{absent,lower,UPPER,information_schema} × create_database × "
                 "create_schema × storage{memory,fresh db_path,db_path with earlier session's files} × prior{nothing,db,db+schema+table} × "
                 f"{{first,second connect}} = {len(product)} configurations, plus {len(adversarial)} adversarial ones (empty strings, built-in "
-                "schema names, unrelated database, names with `_` beside look-alike existing names), plus sequences connect → DDL from another "
+                "schema names, unrelated database, names with `_` beside look-alike existing names, another database holding a schema named like the requested one), plus sequences connect → DDL from another "
                 "session (DROP/CREATE SCHEMA, CREATE DATABASE, CREATE/DROP TABLE) → connect to the same target again (2-3 connects, any letter case), "
                 "each connect compared with the model started from the catalog observed just before it.  non-trivial = distinct configuration with a database argument")
     cfgs = product + adversarial
